@@ -15,6 +15,7 @@ import (
 type c18Case struct {
 	W       World
 	Backend string
+	Links   []string `json:",omitempty"` // config paths that are symbolic links to files outside the directory (native run)
 }
 
 // analyse returns "" for a well-formed hierarchy, else the defect class.
@@ -49,7 +50,13 @@ func checkC18(c c18Case) (*core.Failure, string) {
 	d := w.Dir()
 	before := d.Clone()
 	defect := c18Analyse(w)
-	res, err := runBackend(d, c.Backend, core.FlagDefault)
+	var res core.RunResult
+	var err error
+	if len(c.Links) > 0 {
+		res, err = core.RunNativeLinks(d, core.FlagDefault, c.Links)
+	} else {
+		res, err = runBackend(d, c.Backend, core.FlagDefault)
+	}
 	if err != nil {
 		return nil, "harness-io"
 	}
@@ -110,7 +117,8 @@ func buildC18(n int, iss []int, variant int) World {
 		e := core.Entity{File: dirs[(i+variant)%len(dirs)] + c18Name(i) + exts[(i*3+variant)%len(exts)],
 			Subject: []core.RDN{{Key: "CN", Value: "C18 " + c18Name(i)}}}
 		if (i+variant)%3 == 0 {
-			e.Alias = "alias of " + c18Name(i)
+			// aliases are opaque strings: blanks, slashes and dots mean nothing
+			e.Alias = []string{"alias of ", "corp/", "a/b/", "", "ca.", "../"}[(i+variant/3)%6] + c18Name(i) + []string{"", "", "/", ".yaml"}[(i*7+variant)%4]
 		}
 		if (i+variant)%4 == 1 {
 			// a configured serial number has nothing to do with the alias
@@ -136,7 +144,7 @@ func buildC18(n int, iss []int, variant int) World {
 func TestC18(t *testing.T) {
 	r := core.Start(t, "C18")
 	defer r.Finish()
-	r.Rule = "(a) exhaustive: every issuer function on n <= 3 (quick) / n <= 5 (thorough) labelled entities, each entity having no issuer, any entity including itself, or an undefined name ((n+2)^n graphs), laid out over nested directories with config suffixes in mixed letter case and explicit or file-derived aliases (two layout variants per graph). (b) sampled: up to 6 entities with alias collisions (explicit/explicit, explicit/file name, file name/file name in different directories, same stem with different suffix in one directory), cycles hanging off valid trees, and bystander files (other suffixes, binary junk / lists / version-less YAML under config suffixes, stray PEM). Backends: in-memory, gopki MapFs, NativeFs. Oracle: graph analysis in the harness (duplicate alias, dangling issuer, cycle incl. self-loop) => the run must fail and the directory snapshot is unchanged; otherwise the run succeeds, exactly the files '<config path without extension>.pem' appear, issuer DNs match the configured issuer's subject, everything else is byte-identical. Non-trivial = defect hanging off an otherwise valid tree, or a valid forest spread over >= 2 directories; distinct by rendered tree."
+	r.Rule = "(a) exhaustive: every issuer function on n <= 3 (quick) / n <= 5 (thorough) labelled entities, each entity having no issuer, any entity including itself, or an undefined name ((n+2)^n graphs), laid out over nested directories with config suffixes in mixed letter case and explicit or file-derived aliases (two layout variants per graph). (b) sampled: up to 6 entities with alias collisions (explicit/explicit, explicit/file name, file name/file name in different directories, same stem with different suffix in one directory), cycles hanging off valid trees, and bystander files (other suffixes, binary junk / lists / version-less YAML under config suffixes, stray PEM). explicit aliases containing blanks, slashes, dots and '../' (two aliases with the same last path element are distinct; the bare last element names nobody). Backends: in-memory, gopki MapFs, NativeFs (there also with some configs being symbolic links to files kept outside the directory). Oracle: graph analysis in the harness (duplicate alias, dangling issuer, cycle incl. self-loop) => the run must fail and the directory snapshot is unchanged; otherwise the run succeeds, exactly the files '<config path without extension>.pem' appear, issuer DNs match the configured issuer's subject, everything else is byte-identical. Non-trivial = defect hanging off an otherwise valid tree, or a valid forest spread over >= 2 directories; distinct by rendered tree."
 	r.Assumptions = []string{"two configs with the same stem in one directory but different explicit aliases are not generated (both map to one .pem; the property does not say who wins)"}
 	wrap := func(c c18Case) *core.Failure {
 		f, class := checkC18(c)
@@ -152,6 +160,9 @@ func TestC18(t *testing.T) {
 			key = fmt.Sprint(c.W.Texts(), sortedKeys(c.W.Files))
 		}
 		r.Case(key, "class:"+class, "backend:"+c.Backend)
+		if len(c.Links) > 0 {
+			r.Classes["symlinked-configs"]++
+		}
 		r.Sample("class:"+class, map[string]any{"configs": c.W.Texts(), "bystanders": sortedKeys(c.W.Files)})
 		return f
 	}
@@ -206,7 +217,8 @@ func TestC18(t *testing.T) {
 			}
 		}
 		// ... with one defect attached
-		defect := rapid.SampledFrom([]string{"none", "none", "cycle", "self", "dangling", "alias-explicit-explicit", "alias-explicit-file", "alias-file-file", "alias-same-stem"}).Draw(t, "defect")
+		defect := rapid.SampledFrom([]string{"none", "none", "cycle", "self", "dangling", "alias-explicit-explicit", "alias-explicit-file", "alias-file-file", "alias-same-stem",
+			"slash-aliases-distinct", "slash-alias-last-element-dangling"}).Draw(t, "defect")
 		switch defect {
 		case "cycle":
 			if n >= 3 {
@@ -237,12 +249,21 @@ func TestC18(t *testing.T) {
 				w.Ents[a].Alias, w.Ents[b].Alias = "", ""
 				w.Ents[a].File = "one/" + c18Name(a) + ".yaml"
 				w.Ents[b].File = "two/" + c18Name(a) + ".json"
+			case "slash-aliases-distinct":
+				// same last element, different aliases: no collision
+				w.Ents[a].Alias, w.Ents[b].Alias = "prod/shared", "test/shared"
+			case "slash-alias-last-element-dangling":
+				// "shared" is not "lab/shared": whoever names it as issuer names nobody
+				w.Ents[a].Alias = "lab/shared"
+				if iss[b] == a || b > a {
+					iss[b] = a
+				}
 			case "alias-same-stem":
 				w.Ents[a].Alias, w.Ents[b].Alias = "", ""
 				w.Ents[a].File = "same/" + c18Name(a) + ".yaml"
 				w.Ents[b].File = "same/" + c18Name(a) + rapid.SampledFrom([]string{".json", ".yml", ".YAML"}).Draw(t, "stemext")
 			}
-			if strings.HasPrefix(defect, "alias-") {
+			if strings.HasPrefix(defect, "alias-") || strings.HasPrefix(defect, "slash-") {
 				// keep issuer references pointing at existing aliases where possible
 				for i := range w.Ents {
 					if iss[i] >= 0 && iss[i] < n {
@@ -251,7 +272,17 @@ func TestC18(t *testing.T) {
 				}
 			}
 		}
+		if defect == "slash-alias-last-element-dangling" && a != b && iss[b] == a {
+			w.Ents[b].Issuer = "shared"
+		}
 		c := c18Case{W: w, Backend: rapid.SampledFrom([]string{"memfs", "memfs", "mapfs", "native"}).Draw(t, "backend")}
+		if c.Backend == "native" && rapid.Bool().Draw(t, "links") {
+			for i := range w.Ents {
+				if rapid.IntRange(0, 2).Draw(t, fmt.Sprintf("link%d", i)) == 0 {
+					c.Links = append(c.Links, w.Ents[i].File)
+				}
+			}
+		}
 		c.W.Files = map[string][]byte{}
 		for _, bs := range c18Bystanders {
 			if rapid.IntRange(0, 2).Draw(t, "by-"+bs.path) == 0 {
